@@ -51,6 +51,7 @@ type statOut struct {
 	size  int64
 	ino   uint64
 	nlink uint64
+	mtime int64
 }
 
 // sysH executes one system call on the scheduler goroutine.
@@ -381,6 +382,7 @@ func (k *Kernel) exec(op int, r *simrt.Req, short int, fault *string) (ret int64
 		so.size = int64(len(in.data))
 		so.ino = uint64(in.ino)
 		so.nlink = uint64(in.nlink)
+		so.mtime = in.mtime
 		return 0, 0, args
 	case opMkdirat:
 		p := cloneStr(r.S0)
@@ -638,6 +640,9 @@ func fillStat(st *Stat_t, so *statOut) {
 	st.Nlink = so.nlink
 	st.Blksize = 4096
 	st.Blocks = (so.size + 511) / 512
+	// the epoch of the simulated clock is 2001-09-09T01:46:40Z, as in simtime
+	ts := Timespec{Sec: 1_000_000_000 + so.mtime/1e9, Nsec: so.mtime % 1e9}
+	st.Mtim, st.Ctim, st.Atim = ts, ts, ts
 }
 
 //go:norace
